@@ -191,7 +191,12 @@ impl FmtAttribute {
             Some(parsing::Argument::Identifier(name)) => (self.args.len() == 1)
                 .then(|| self.args.first())
                 .flatten()
-                .filter(|a| a.alias.as_ref().map(|a| a.0 == name).unwrap_or_default())
+                .filter(|a| {
+                    a.alias
+                        .as_ref()
+                        .map(|a| a.0.unraw() == name)
+                        .unwrap_or_default()
+                })
                 .map(|a| a.expr.clone()),
         }?;
 
@@ -245,13 +250,16 @@ impl FmtAttribute {
                 Parameter::Named(name) => self
                     .args
                     .iter()
-                    .find_map(|a| (a.alias()? == &name).then_some(&a.expr))
-                    .map_or(Some(name), |expr| expr.ident().map(ToString::to_string))?,
+                    .find_map(|a| (a.alias()?.unraw() == name).then_some(&a.expr))
+                    .map_or(Some(name), |expr| {
+                        expr.ident().map(|ident| ident.unraw().to_string())
+                    })?,
                 Parameter::Positional(i) => self
                     .args
                     .iter()
                     .nth(i)
                     .and_then(|a| a.expr.ident().filter(|_| a.alias.is_none()))?
+                    .unraw()
                     .to_string(),
             };
 
@@ -295,7 +303,7 @@ impl FmtAttribute {
                 Parameter::Named(name) => self
                     .args
                     .iter()
-                    .find_map(|a| (a.alias()? == name).then_some(&a.expr))
+                    .find_map(|a| (a.alias()?.unraw() == name).then_some(&a.expr))
                     .map_or(Some(name.clone()), |expr| {
                         expr.ident().map(ToString::to_string)
                     }),
